@@ -24,6 +24,7 @@ INIT = [
     {"k": "D1", "r": 1, "x": [6, 1], "w": 0}, {"k": "D1", "r": 2, "x": [9, 1], "w": 2}, {"k": "S2", "r": 1, "x": [3, 1], "w": -1},
 ]
 MAXREFS, MAXEV, MAXTCS, MAXTRKS, MAXLEN = 12, 8, 4, 4, 6
+MAXTRKS_ALL = 12   # tracks created by tracking / loading track lists may go beyond MAXTRKS
 
 
 def kind_of(d):
@@ -110,6 +111,13 @@ def _file_state(w, p):
     with h5py.File(path, "r") as fp:
         n = len(fp)
     return {"kind": w.file_kind[p], "nsets": n}
+
+
+def _nsets(w, p):
+    import h5py
+
+    with h5py.File(w.path(p), "r") as fp:
+        return len(fp)
 
 
 def dim_of(d):
@@ -203,8 +211,18 @@ def candidates(w: c20.World, rng):
         ops.append({"op": "TcLoad", "p": p})
     if w.trks:
         ops.append({"op": "TrkSave", "k": rng.randint(1, len(w.trks)), "p": p})
-    if w.file_kind[p] == "trk" and len(w.trks) < MAXTRKS:
+    if w.file_kind[p] in ("trk", "tl") and len(w.trks) < MAXTRKS:
         ops.append({"op": "TrkLoad", "p": p})
+    if w.tls:
+        ops.append({"op": "TlSave", "l": rng.randint(1, len(w.tls)), "p": p})
+    if w.file_kind[p] in ("trk", "tl") and len(w.tls) < 3 and len(w.trks) + _nsets(w, p) <= MAXTRKS_ALL:
+        ops.append({"op": "TlLoad", "p": p})
+    if w.tcs and len(w.tls) < 3:
+        c = rng.randint(1, len(w.tcs))
+        members = [d for em in w.tcs[c - 1].emulsions for d in list.__iter__(em)]
+        if all(dim_of(d) == 1 for d in members) and len(w.trks) + len(members) <= MAXTRKS_ALL:
+            meth, md = rng.choice([("overlap", -1), ("distance", -1), ("distance", 2), ("distance", 0)])
+            ops.append({"op": "TlFromTc", "c": c, "meth": meth, "md": md})
     if len(w.trks) < MAXTRKS:
         if rng.random() < 0.5:
             ops.append({"op": "TrkNew", "L": L, "times": [], "explicit": False})
